@@ -212,6 +212,57 @@ class Something(DBC):
     def __init__(self, name: Lower_and_upper) -> None:
         self.name = name
 ''',
+    "identifiers-with-trailing-underscore": '''
+class Kind_(Enum):
+    In_ = "in"
+    Out_ = "out"
+
+
+@invariant(lambda self: len(self.name_) >= 1, "Name must not be empty.")
+class Thing_(DBC):
+    name_: str
+    kind_: Kind_
+
+    def __init__(self, name_: str, kind_: Kind_) -> None:
+        self.name_ = name_
+        self.kind_ = kind_
+''',
+    "identifiers-with-double-underscore": '''
+class Some__kind(Enum):
+    In__out = "in-out"
+    Out__in = "out-in"
+
+
+@invariant(lambda self: len(self.some__name) >= 1, "Name must not be empty.")
+class Some__thing(DBC):
+    some__name: str
+    some__kind: Some__kind
+
+    def __init__(self, some__name: str, some__kind: Some__kind) -> None:
+        self.some__name = some__name
+        self.some__kind = some__kind
+''',
+    "enum-literal-with-trailing-underscore": '''
+class Direction(Enum):
+    In_ = "in"
+    Out = "out"
+
+
+class Something(DBC):
+    direction: Direction
+
+    def __init__(self, direction: Direction) -> None:
+        self.direction = direction
+''',
+    "property-with-double-underscore": '''
+class Something(DBC):
+    some__text: str
+    other_text: Optional[str]
+
+    def __init__(self, some__text: str, other_text: Optional[str] = None) -> None:
+        self.some__text = some__text
+        self.other_text = other_text
+''',
     "empty-model": "",
 }
 FOOTER = '\n\n__version__ = "dummy"\n__xml_namespace__ = "https://dummy.com"\n'
